@@ -27,7 +27,7 @@ MANIFEST = {
     "ref": "6 C02",
 }
 RULE = ("programs as in C01 with cleanups registered in setUp (before/after the upcall), test, tearDown and inside "
-        "cleanups (depth <= 3), patches of existing and missing attributes of a scratch object, fixtures (new and old "
+        "cleanups (depth <= 3), patches of existing (values incl. None) and missing attributes of a scratch object, fixtures (new and old "
         "style, failing set-up, failing cleanups), each run twice on one instance; exhaustive: every assignment of 10 "
         "behaviours to setUp/test/tearDown/cleanup over 4 registration sites; non-trivial = a nested cleanup, or a "
         "patch/fixture together with a raising statement, or at least 2 raising statements; distinct = distinct JSON")
@@ -43,9 +43,16 @@ EXPLANATION = ("Theorems in coq/Props/C02.v over all programs; correspondence: t
 FEATS = frozenset(["patch", "fixture", "details", "onexc"])
 
 
+def _num(v):
+    """attribute values as numbers: 0 stands for None (patch() never writes 0 in generated programs)"""
+    return 0 if v is None else v
+
+
 def drive(case):
-    rs = R.run_program(case["prog"], "FExtended", attrs0=case["attrs"], runs=2)
-    return [{"log": o["log"], "left": o["leftover"], "attrs": o["attrs"],
+    attrs0 = [[a, None if v == 0 else v] for a, v in case["attrs"]]
+    rs = R.run_program(case["prog"], "FExtended", attrs0=attrs0, runs=2)
+    return [{"log": [[e[0], e[1], _num(e[2])] if e[0] == "set" else e for e in o["log"]], "left": o["leftover"],
+             "attrs": [[a, _num(v)] for a, v in o["attrs"]],
              "outs": [e[1] for e in o["trace"] if e[0] == "out"]} for o in rs]
 
 
@@ -96,7 +103,8 @@ def site_program(site, combo):
 
 
 def rand_attrs(rng):
-    return [[a, rng.randint(1, 3)] for a in (0, 1, 2) if rng.random() < 0.5]
+    # value 0 = the attribute exists and is None
+    return [[a, rng.randint(0, 3)] for a in (0, 1, 2) if rng.random() < 0.5]
 
 
 def generate(rng, tier):
@@ -120,6 +128,7 @@ def generate(rng, tier):
     for p in fixed:
         cases.append({"prog": p, "attrs": [[0, 1]]})
         cases.append({"prog": p, "attrs": []})
+        cases.append({"prog": p, "attrs": [[0, 0], [1, 0]]})
     combos = list(itertools.product(list(R.BEHAVIOURS), repeat=4))
     stride = 1 if tier == "thorough" else 16
     off = rng.randrange(stride)
@@ -127,13 +136,65 @@ def generate(rng, tier):
         if k % stride != off:
             continue
         for site in (SITES if tier == "thorough" else [SITES[(k // stride) % 5], SITES[(k // stride + 2) % 5]]):
-            cases.append({"prog": site_program(site, combo), "attrs": [[0, 1]] if k % 2 else []})
+            cases.append({"prog": site_program(site, combo), "attrs": [[[0, 1]], [], [[0, 0], [1, 2]]][k % 3]})
     n = 3000 if tier == "quick" else 60000
     for _ in range(n):
         p = R.rand_prog(rng, feats=FEATS if rng.random() < 0.8 else frozenset(["patch"]),
                         p_raise=rng.choice([0.3, 0.5, 0.8]))
         cases.append({"prog": p, "attrs": rand_attrs(rng)})
     return cases
+
+
+GLUE = r"""
+import json, sys
+from testtools.monkey import MonkeyPatcher
+samples = json.loads(sys.argv[1])
+out = []
+for before, patches, boom in samples:
+    class O:
+        pass
+    o = O()
+    for a, v in before:
+        setattr(o, "a%d" % a, None if v == 0 else v)
+    snap = dict(vars(o))
+    mp = MonkeyPatcher(*[(o, "a%d" % a, v) for a, v in patches])
+    if boom:
+        def f():
+            raise ValueError("boom")
+        try:
+            mp.run_with_patches(f)
+        except ValueError:
+            pass
+    else:
+        mp.patch()
+        mp.restore()
+    out.append(dict(vars(o)) == snap)
+print(json.dumps(out))
+"""
+
+
+def extra_checks(tier, rng):
+    """MonkeyPatcher used directly with several patches, also of one attribute, existing (incl. None) and
+    missing: restore() / run_with_patches leave vars(obj) as before (TestCase.patch makes one MonkeyPatcher
+    per call, so its restore order inside one patcher is not visible through the model)."""
+    import json
+    import os
+    import subprocess
+    import sys
+    n = 40 if tier == "quick" else 400
+    samples = [[[[0, 1]], [[0, 5], [0, 6]], False], [[], [[1, 5], [1, 6], [1, 7]], False], [[[2, 0]], [[2, 5], [2, 6]], True]]
+    for _ in range(n):
+        samples.append([rand_attrs(rng), [[rng.randint(0, 2), rng.randint(1, 4)] for _ in range(rng.randint(1, 4))],
+                        rng.random() < 0.3])
+    repo = os.environ.get("VERIF_REPO", "/repo")
+    env = dict(os.environ, PYTHONPATH=repo, PYTHONHASHSEED="0", PYTHONDONTWRITEBYTECODE="1")
+    p = subprocess.run([sys.executable, "-c", GLUE, json.dumps(samples)], capture_output=True, text=True, env=env, timeout=300)
+    try:
+        oks = json.loads(p.stdout)
+    except ValueError:
+        return [{"ok": False, "what": "MonkeyPatcher glue script failed", "stderr": p.stderr[-400:]}]
+    return [{"ok": bool(ok), "what": "MonkeyPatcher patch/restore leaves vars(obj) unchanged", "before": s0[0], "patches": s0[1],
+             "run_with_patches_raising": s0[2]} for ok, s0 in zip(oks, samples)]
 
 
 def shrink(case):
